@@ -18,6 +18,9 @@ CHECKS = {
     "C17": dict(
         text="Coq theorems: data_align p d = d ++ zeros(pad_count p |d|) for every p >= 0 and d, pad_count is the unique k < p making the length a multiple of p (0 for p = 0); for every frame frame_create can emit and every padding, recv_dispatch(padded) = recv_dispatch(unpadded); padding-only writes dispatch nothing. Differential: all paddings x lengths (exhaustive in thorough), every request kind x paddings through the real recv_handle.",
         design="3/C17", technique="Coq proof (arithmetic + dispatcher characterisation) + translator-regenerated constants + differential correspondence"),
+    "C19": dict(
+        text="Coq theorems over a model of the two dataclasses as finite maps with the regenerated __setattr__ allow-list and __post_init__ masks: for every constructor argument, every attribute name (any string) and every value, assignment on a constructed channel record raises and leaves the record unchanged unless the name is en/div, in which case exactly that attribute changes; on the device record it always raises; derived attributes equal their defining functions for all 256 type bytes / flag bytes (sweep lifted by lemma). Differential: real records (direct, via DeviceChannel.data, via Device.channel_get) x names x value kinds x type bytes, __dict__ before/after compared.",
+        design="3/C19", technique="Coq proof (all names/values; 256-value sweeps lifted) + translator-regenerated constants + differential correspondence"),
 }
 PENDING = {}
 
